@@ -422,7 +422,15 @@ func getAccountsForPrefix(accounts *analyzer.AccountIndex, prefix string) []stri
 		return accounts.All
 	}
 
-	if accs, ok := accounts.ByPrefix[prefix]; ok {
+	// names are matched without regard to case, so the parent prefix is too
+	lowerPrefix := strings.ToLower(prefix)
+	var accs []string
+	for _, name := range accounts.All {
+		if strings.HasPrefix(strings.ToLower(name), lowerPrefix) {
+			accs = append(accs, name)
+		}
+	}
+	if len(accs) > 0 {
 		return accs
 	}
 
